@@ -183,3 +183,6 @@ Qed.
 (* a cleaned timestamp carries a non-empty text (used where truthiness of a value is compared with
    truthiness of its serialization) *)
 Definition nice (x : pval) : Prop := match x with PTime _ t => t <> [] | _ => True end.
+
+Lemma udrop_app (p s : ustring) : udrop (List.length p) (p ++ s) = s.
+Proof. induction p; simpl; auto. Qed.
